@@ -216,6 +216,85 @@ func c34(c *Ctx) {
 			c.MustFact(st, "advance-only-while-valid", Truth(CallRes(Callee(pfp, "addressList.isValid"), 0), true))
 		}
 	})
+	c.Ob("pass-progress", "R3", "a subchannel failing in the first pass is marked failed and the pass moves on (next address) or is concluded; after the pass an IDLE subchannel is reconnected; a resolver update in TRANSIENT_FAILURE restarts a pass without reporting CONNECTING; the address list's cursor helpers compare with the list length", 9, func() {
+		// marking
+		var marks []*ssa.Store
+		for _, st := range storesToField(us, fFailed) {
+			marks = append(marks, st)
+		}
+		if c.Expect(len(marks) == 1, nil, us, "failure-marked-in-callback", "a failing subchannel is not marked failed in the state callback") {
+			c.ValueIs(marks[0], marks[0].Val, "marked-true", ConstBool(true))
+			c.MustFact(marks[0], "marked-only-on-TF", Cmp(newCS, token.EQL, k("TransientFailure")))
+			c.OnlyFacts(marks[0], "marking-has-no-further-precondition", Cmp(newCS, token.EQL, k("TransientFailure")), Cmp(newCS, token.NEQ, k("Shutdown")), active)
+		}
+		// first-pass TF arm: advance or conclude
+		inFirst := Truth(FieldLoad(fFirst), true)
+		var starts []*ssa.BasicBlock
+		for _, b := range us.Blocks {
+			for _, su := range b.Succs {
+				if _, ok := hasFact(edgeOnlyFacts(b, su), Cmp(newCS, token.EQL, k("TransientFailure"))); ok {
+					if _, in1 := hasFact(FactsAtBlock(b), inFirst); in1 {
+						starts = append(starts, su)
+					}
+				}
+			}
+		}
+		if c.Expect(len(starts) == 1, nil, us, "first-pass-TF-arm", "first-pass TRANSIENT_FAILURE arm not found") {
+			c.MustPass("first-pass-failure-advances-or-concludes", pathQuery{Fn: us, StartBlocks: starts, Barrier: orInstr(isCallTo(Callee(pfp, pb+".requestConnectionLocked")), isCallTo(Callee(pfp, pb+".endFirstPassIfPossibleLocked"))), Target: isReturn}, nil)
+		}
+		for _, st := range storesToField(us, fEff) {
+			if k("TransientFailure")(st.Val) {
+				c.MustFact(st, "effective-TF-only-on-TF", Cmp(newCS, token.EQL, k("TransientFailure")))
+			}
+		}
+		// reconnects: Connect outside the walk only for an IDLE subchannel
+		for _, f := range []*ssa.Function{us, c.fn(pfp, pb+".endFirstPassIfPossibleLocked")} {
+			for _, g := range append([]*ssa.Function{f}, f.AnonFuncs...) {
+				for _, ci := range callsIn(g, Callee("balancer", "SubConn.Connect")) {
+					c.MustFactAny(ci, shortName(g)+":reconnect-only-when-IDLE", Cmp(FieldLoad(fRaw), token.EQL, k("Idle")), Cmp(newCS, token.EQL, k("Idle")))
+				}
+			}
+		}
+		// resolver update
+		uc := c.fn(pfp, pb+".UpdateClientConnState")
+		sfp := callsIn(uc, Callee(pfp, pb+".startFirstPassLocked"))
+		c.Expect(len(sfp) == 2, nil, uc, "two-pass-starts", "expected a pass to start on the CONNECTING arm and on the TRANSIENT_FAILURE arm of a resolver update")
+		nTF := 0
+		for _, s := range sfp {
+			if c.HasFact(s, Cmp(FieldLoad(fState), token.EQL, k("TransientFailure"))) {
+				nTF++
+				// sticky TF: no CONNECTING report on this arm
+				for _, rep := range callsIn(uc, isReport) {
+					if n, _ := reportedConst(rep); n == "Connecting" {
+						c.Expect(!instrDominates(rep, s) || rep.Block() != s.Block(), rep, uc, "no-CONNECTING-on-the-TF-arm", "a resolver update while in TRANSIENT_FAILURE reports CONNECTING")
+					}
+				}
+			}
+		}
+		c.Expect(nTF == 1, nil, uc, "pass-restarts-in-TF", "a resolver update in TRANSIENT_FAILURE does not start a new pass")
+		for _, rep := range callsIn(uc, isReport) {
+			if n, _ := reportedConst(rep); n == "Connecting" {
+				c.Unreachable(rep, "CONNECTING-on-update-only-if-ready-connecting-or-first", Truth(AnyBoolPhi, false), Cmp(FieldLoad(fState), token.NEQ, k("Connecting")), CmpInt(CallRes(Callee(pfp, "addressList.size"), 0), token.NEQ, 0))
+			}
+		}
+		// cursor helpers
+		fIdx := c.field(pfp, "addressList", "idx")
+		fAddrs := c.field(pfp, "addressList", "addresses")
+		inBounds := BinOpV(token.LSS, FieldLoad(fIdx), LenOf(FieldLoad(fAddrs)))
+		for _, r := range returnsOf(c.fn(pfp, "addressList.isValid")) {
+			c.ValueIs(r, r.Results[0], "isValid=idx<len", inBounds)
+		}
+		for _, r := range returnsOf(c.fn(pfp, "addressList.increment")) {
+			if !ConstBool(false)(r.Results[0]) {
+				c.ValueIs(r, r.Results[0], "increment-reports-idx<len", inBounds)
+			}
+		}
+		for _, r := range returnsOf(c.fn(pfp, "addressList.hasNext")) {
+			if !ConstBool(false)(r.Results[0]) {
+				c.ValueIs(r, r.Results[0], "hasNext=idx+1<len", BinOpV(token.LSS, BinOpV(token.ADD, FieldLoad(fIdx), ConstInt(1)), LenOf(FieldLoad(fAddrs))))
+			}
+		}
+	})
 	c.Ob("first-pass-end", "R2", "endFirstPassIfPossibleLocked: firstPass=false and the TRANSIENT_FAILURE report only with the list exhausted and no unmarked subchannel; firstPass is set only when a pass starts", 5, func() {
 		ef := c.fn(pfp, pb+".endFirstPassIfPossibleLocked")
 		st := one(c, "firstPass=false", storesToField(ef, fFirst))
@@ -473,4 +552,14 @@ func (c *Ctx) UnreachableViaRangeFunc(site ssa.Instruction, label string, fn *ss
 		return false
 	}
 	return ok
+}
+
+// AnyBoolPhi matches a boolean phi (a flag computed by && / ||).
+func AnyBoolPhi(v ssa.Value) bool {
+	p, ok := v.(*ssa.Phi)
+	if !ok {
+		return false
+	}
+	b, ok := p.Type().Underlying().(*types.Basic)
+	return ok && b.Kind() == types.Bool
 }
